@@ -186,3 +186,23 @@ contract("CircuitCompositeOperation.apply_modifiers_to_self", params=dict(self=C
                     F_STRAT, F_FLD, F_GRAPH,
                     f"len({NODES}) == ({N0} if {N0} >= 1 else 1) * len(old({NODES}))",
                     f"forall(old({NODES}), lambda n: exists({NODES}, lambda m: m is n))"]})
+
+# ---------------------------------------------------------------- DeclarativeCircuit.apply_modifiers (the public entry point)
+DC = REF("DeclarativeCircuit")
+fields("DeclarativeCircuit", nr_qubits=INT, _structure=CCO, _added_operations=SEQ(OP))
+# constructor (assumed: the body builds a composite from DEFAULT ARGUMENT OBJECTS that are shared between calls, which the engine
+# does not model): a new circuit object; nothing that exists is touched
+contract("DeclarativeCircuit.__new__", params=dict(self=DC, nr_qubits=INT), returns=None, verify=False, modifies=[],
+         ensures=["self.nr_qubits == nr_qubits"])
+contract("DeclarativeCircuit.apply_modifiers", params=dict(self=DC), returns=DC, props=P, inst_depth=2, fresh_result=True,
+         modifies=AM_MOD + ["DeclarativeCircuit._structure", "DeclarativeCircuit._added_operations"],
+         requires=["self._structure is not None", "self._structure.tree_ok"],
+         ensures=["fresh(result)", "result is not self",
+                  # the returned circuit shares the (modified in place) structure and the list of added operations
+                  "result._structure is old(self._structure)", "self._structure is old(self._structure)",
+                  "seq_is(result._added_operations, old(self._added_operations))", "result.nr_qubits == self.nr_qubits",
+                  # ... whose modifiers have been applied (apply_modifiers_to_self's contract)
+                  "let(result._structure, lambda s: typeis(s.repetition_strategy, FixedRepetitionStrategy) and s.repetition_strategy.repetitions == 1 "
+                  "and s.nr_of_repetitions == 1)",
+                  f"let(old(self._structure), lambda s: len(s._circuit_graph.get_node_iterator()) == "
+                  f"(old(s.nr_of_repetitions) if old(s.nr_of_repetitions) >= 1 else 1) * len(old(s._circuit_graph.get_node_iterator())))"])
